@@ -751,7 +751,7 @@ func init() {
 			if tier == "thorough" {
 				return 12
 			}
-			return 4
+			return 8
 		},
 		Timeout: func(tier string) time.Duration {
 			if tier == "thorough" {
